@@ -73,6 +73,18 @@ impl Watch {
             let end = known_before.or(frame_end);
             if let Some(fe) = end {
                 if self.rx.len() > fe {
+                    // the list of that call is still a returned event list (C19)
+                    let mut closed = false;
+                    for e in &evs {
+                        match e {
+                            Ev::Close => closed = true,
+                            Ev::Send { pkt, .. } if closed && self.deferred.is_none() => {
+                                let step = self.step;
+                                self.deferred = Some(Violation { props: vec!["C19"], class: format!("close-before-send/{}", wire::kind_name(pkt.kind)), msg: format!("{what}: RequestClose precedes {} in a list that covers more than one frame: {}", pkt.short(), evs_short(&evs)), step });
+                            }
+                            _ => {}
+                        }
+                    }
                     self.flag(&["C09"], "consumed-past-frame", format!("{what}: one recv call consumed {} bytes, {} beyond the end of the current frame", np - pos, self.rx.len() - fe));
                     break;
                 }
